@@ -304,6 +304,98 @@ func textIntactRule(w *World, r *Report, rule string) {
 			}
 		}
 	}
+	// the entry points of the root package that take a source text hand it to the reader as it is (the one
+	// that decodes a preamble cuts lines off the front and is judged by C15's rules)
+	readers := map[*ssa.Function]bool{rs: true}
+	for _, name := range []string{"READ", "READWithPreamble"} {
+		if f := w.Fn("", name); f != nil {
+			readers[f] = true
+		}
+	}
+	// (the preamble decoder and the functions only it calls read pieces of the text: lines, values)
+	cutGroup := map[*ssa.Function]bool{}
+	for _, f := range w.Funcs {
+		if fnPkgPath(f) != modPath || isTestFunc(w, f) {
+			continue
+		}
+		for _, b := range f.Blocks {
+			for _, in := range b.Instrs {
+				if c, ok := in.(*ssa.Call); ok && c.Call.StaticCallee() != nil && fnPkgPath(c.Call.StaticCallee()) == "strings" && c.Call.StaticCallee().Name() == "Cut" {
+					cutGroup[f] = true
+				}
+			}
+		}
+	}
+	eng := newEngine(w)
+	for changed := true; changed; {
+		changed = false
+		for _, f := range w.Funcs {
+			if cutGroup[f] || fnPkgPath(f) != modPath || isTestFunc(w, f) || f.Parent() != nil {
+				continue
+			}
+			sites := eng.callSites(f)
+			all := len(sites) > 0
+			for _, cs := range sites {
+				if !cutGroup[cs.Parent()] {
+					all = false
+				}
+			}
+			if all {
+				cutGroup[f] = true
+				changed = true
+			}
+		}
+	}
+	for _, f := range w.Funcs {
+		if f.Parent() != nil || isTestFunc(w, f) || fnPkgPath(f) != modPath || len(f.Blocks) == 0 || cutGroup[f] {
+			continue
+		}
+		cuts := false
+		var calls []*ssa.Call
+		for _, b := range f.Blocks {
+			for _, in := range b.Instrs {
+				c, ok := in.(*ssa.Call)
+				if !ok || c.Call.StaticCallee() == nil {
+					continue
+				}
+				if fnPkgPath(c.Call.StaticCallee()) == "strings" && c.Call.StaticCallee().Name() == "Cut" {
+					cuts = true
+				}
+				if readers[c.Call.StaticCallee()] && len(c.Call.Args) > 0 && isStringVal(c.Call.Args[0]) {
+					calls = append(calls, c)
+				}
+			}
+		}
+		if cuts {
+			continue
+		}
+		for _, c := range calls {
+			n++
+			r.check(isParamOf(c.Call.Args[0], f, 0), rule, f, "text handed to "+c.Call.StaticCallee().Name(), c.Pos(), "the function's own text parameter, unchanged", "the text is altered before it is read ("+describeVal(nil, c.Call.Args[0], 0)+"): a line put in front of it, or anything else that moves its characters, shifts every position the reader records, so run-time errors point at the wrong rows")
+		}
+	}
+	// ... and the scanner reads from that reader itself, not from one wrapped around it (a limiting, skipping
+	// or transcoding reader shows the scanner another text than the one that was given)
+	for _, f := range w.withPkgHelpers(tk) {
+		for _, b := range f.Blocks {
+			for _, in := range b.Instrs {
+				c, ok := in.(*ssa.Call)
+				if !ok || c.Call.StaticCallee() == nil || c.Call.StaticCallee().Name() != "Init" || c.Call.StaticCallee().Signature.Recv() == nil || len(c.Call.Args) < 2 {
+					continue
+				}
+				if !strings.Contains(c.Call.StaticCallee().Signature.Recv().Type().String(), "scanner.Scanner") {
+					continue
+				}
+				n++
+				src := unboxed(c.Call.Args[1])
+				direct := false
+				if sc, ok := src.(*ssa.Call); ok && sc.Call.StaticCallee() != nil && sc.Call.StaticCallee().Name() == "NewReader" && fnPkgPath(sc.Call.StaticCallee()) == "strings" {
+					direct = true
+				}
+				r.check(direct, rule, f, "reader the scanner is initialised with", c.Pos(), "strings.NewReader(text) itself", "the scanner does not read the text's own reader but "+describeVal(nil, src, 0)+": what it sees can be shorter than or different from the text (a text cut at a size limit is reported as incomplete, or its rest is silently dropped)")
+			}
+		}
+	}
 	r.floor(rule, "hand-overs of the source text", n, 2)
 }
 
@@ -633,6 +725,18 @@ func keyContentRule(w *World, r *Report, rule string) {
 			if iff == nil {
 				continue
 			}
+			// "this key is in the table already" is a judgement on the key's content too
+			if ex, isEx := iff.Cond.(*ssa.Extract); isEx && ex.Index == 1 {
+				if lk, isLk := ex.Tuple.(*ssa.Lookup); isLk && lk.CommaOk {
+					for _, rt := range errorReturns(fn) {
+						ret := rt[0].(*ssa.Return)
+						ev, _ := rt[2].(ssa.Value)
+						if ev != nil && !isNilConst(ev) && isErrorType(ev.Type()) && edgeDominates(d, 0, ret.Block()) {
+							r.bad(rule, fn, "key refused because it is present already", lk.Pos(), "an error is returned when the key is found in the table being built: a repeated key takes the last value (the printer never writes one twice, but two keys a table of names confuses - the keyword :a and the string \"a\" - are refused)")
+						}
+					}
+				}
+			}
 			bo, ok := iff.Cond.(*ssa.BinOp)
 			if !ok {
 				continue
@@ -732,4 +836,143 @@ func peekNextRule(w *World, r *Report, rule string) {
 		}
 	}
 	r.floor(rule, "checks on the token accessors", n, 4)
+}
+
+// collectionReaderErrorsRule: a reader function for a bracketed collection (a caller of the bracket matcher
+// that is not the dispatcher) fails only with the error of the bracket matcher or of the collection builder
+// it hands the elements to. An error of its own making refuses a well-bracketed collection for what is in
+// it - and whatever it refuses, the printer can have written.
+func collectionReaderErrorsRule(w *World, r *Report, rule string, readers []*ssa.Function) {
+	r.rule(rule, "the reader functions for bracketed collections (list, vector, hash-map, set) return, when they fail, the error of the function they called (the bracket matcher, the collection builder of package types), never an error constructed on the spot: no collection the printer can write is refused by its reader for its contents")
+	n := 0
+	for _, fn := range readers {
+		// (the reader for constructor forms «name …» applies a function it looks up: not a data collection)
+		applies := false
+		for _, b := range fn.Blocks {
+			for _, in := range b.Instrs {
+				if c, ok := in.(ssa.CallInstruction); ok {
+					if c.Common().IsInvoke() && strings.HasSuffix(c.Common().Value.Type().String(), "types.EnvType") {
+						applies = true
+					}
+					if sc := c.Common().StaticCallee(); sc != nil && sc == w.Fn("types", "Apply") {
+						applies = true
+					}
+				}
+			}
+		}
+		if applies {
+			continue
+		}
+		for _, rt := range errorReturns(fn) {
+			ret := rt[0].(*ssa.Return)
+			ev, _ := rt[2].(ssa.Value)
+			if ev == nil || isNilConst(ev) || !isErrorType(ev.Type()) {
+				continue
+			}
+			n++
+			passed := false
+			switch x := ev.(type) {
+			case *ssa.Extract:
+				_, passed = x.Tuple.(*ssa.Call)
+			case *ssa.Call:
+				passed = x.Call.StaticCallee() != nil && inModule(x.Call.StaticCallee()) && x.Call.StaticCallee().Name() != "NewLispError"
+			case *ssa.Phi:
+				passed = true
+				for _, ed := range x.Edges {
+					if exx, ok := ed.(*ssa.Extract); !ok {
+						passed = passed && isNilConst(ed)
+					} else if _, isCall := exx.Tuple.(*ssa.Call); !isCall {
+						passed = false
+					}
+				}
+			}
+			r.check(passed, rule, fn, "error answered by a collection reader", ret.Pos(), "the error of the function it called", "the reader of a bracketed collection makes an error of its own ("+describeVal(nil, ev, 0)+"): a collection whose brackets match is refused because of its elements, so a value the printer wrote cannot be read back")
+		}
+	}
+	r.floor(rule, "error answers of the collection readers", n, 3)
+}
+
+// textVerdictRule: whether a text is read is decided by its tokens and their structure. The reader's entry
+// point returns an error only once the tokenizer has run (the tokenizer's own error, the parser's, the
+// left-over check), and none of its error returns depends on a search of the raw text (strings.Index…,
+// Contains…, a regular expression, unicode classes): no text is refused for the characters it contains.
+func textVerdictRule(w *World, r *Report, rule string) {
+	r.rule(rule, "reader.Read_str answers with an error only after it has called the tokenizer, and no error it returns is control-dependent on a strings / regexp / unicode test of the source text: strings and symbols of any Unicode content inside a well-formed text are read, whatever characters they hold (values a placeholder carries are read by the same entry point)")
+	rs := w.Fn("reader", "Read_str")
+	if rs == nil {
+		r.undecided(rule, nil, "reader.Read_str", token.NoPos, "function no longer resolves")
+		return
+	}
+	// the tokenizer: the function of the package Read_str calls that returns the token slice
+	var tok *ssa.Call
+	for _, b := range rs.Blocks {
+		for _, in := range b.Instrs {
+			if c, ok := in.(*ssa.Call); ok && c.Call.StaticCallee() != nil && fnPkgPath(c.Call.StaticCallee()) == fnPkgPath(rs) {
+				res := c.Call.StaticCallee().Signature.Results()
+				if res.Len() >= 1 {
+					if sl, ok := res.At(0).Type().Underlying().(*types.Slice); ok && isTokenStruct(sl.Elem()) && tok == nil {
+						tok = c
+					}
+				}
+			}
+		}
+	}
+	if tok == nil {
+		r.undecided(rule, rs, "call of the tokenizer", rs.Pos(), "Read_str calls no function of its package that returns the token list")
+		return
+	}
+	textTest := func(v ssa.Value) string {
+		found := ""
+		seen := map[ssa.Value]bool{}
+		var walk func(v ssa.Value, depth int)
+		walk = func(v ssa.Value, depth int) {
+			if v == nil || seen[v] || depth > 6 || found != "" {
+				return
+			}
+			seen[v] = true
+			switch x := v.(type) {
+			case *ssa.Call:
+				if sc := x.Call.StaticCallee(); sc != nil {
+					switch fnPkgPath(sc) {
+					case "strings", "regexp", "unicode", "unicode/utf8", "bytes":
+						found = fnPkgPath(sc) + "." + sc.Name()
+						return
+					}
+				}
+				for _, a := range x.Call.Args {
+					walk(a, depth+1)
+				}
+			case *ssa.BinOp:
+				walk(x.X, depth+1)
+				walk(x.Y, depth+1)
+			case *ssa.UnOp:
+				walk(x.X, depth+1)
+			case *ssa.Phi:
+				for _, ed := range x.Edges {
+					walk(ed, depth+1)
+				}
+			case *ssa.Extract:
+				walk(x.Tuple, depth+1)
+			}
+		}
+		walk(v, 0)
+		return found
+	}
+	n := 0
+	for _, rt := range errorReturns(rs) {
+		ret := rt[0].(*ssa.Return)
+		ev, _ := rt[2].(ssa.Value)
+		if ev == nil || isNilConst(ev) {
+			continue
+		}
+		n++
+		after := tok.Block() == ret.Block() || tok.Block().Dominates(ret.Block())
+		r.check(after, rule, rs, "error answered by the reader's entry point", ret.Pos(), "after the tokenizer has run", "Read_str refuses a text before it has been tokenized: the verdict rests on something other than the tokens (a scan of the raw text, say), so texts with certain characters inside strings are unreadable although they are well-formed")
+		for _, a := range knownConds(ret.Block()) {
+			if t := textTest(a.v); t != "" {
+				r.bad(rule, rs, "error decided by a scan of the text", ret.Pos(), "an error return of Read_str depends on "+t+": the raw text is judged beside its tokens, and a value (a string with those characters) that the printer writes is refused when it is read back")
+			}
+		}
+	}
+	r.floor(rule, "error returns of Read_str", n, 3)
 }
